@@ -64,6 +64,9 @@ def norm(n, env):
             e = dict(env)
             bind(e, a[0]["params"][0], ("elem",))
             return (m, r, norm(a[0]["body"], e))
+        if m in ("map", "flat_map") and len(a) == 1 and a[0]["k"] == "path" and a[0]["segs"][-1] in ("into", "from", "clone", "to_owned", "as_ref", "deref") and a[0]["segs"][-2:-1] in (["Into"], ["From"], ["Clone"], ["ToOwned"], ["AsRef"], ["Deref"], []):
+            # point-free conversion `.map(Into::into)` == `.map(|x| x.into())`: the element itself for this calculus
+            return (m, r, ("elem",))
         if m == "fold" and len(a) == 2 and a[1]["k"] == "closure" and len(a[1]["params"]) == 2:
             e = dict(env)
             bind(e, a[1]["params"][0], ("acc",))
